@@ -135,8 +135,13 @@ impl<T: Read + Seek> ClassRead for T {
         Ok(buf)
     }
     fn read_u8_vec(&mut self, size: usize) -> Result<Vec<u8>> {
-        let mut vec = std::vec::from_elem(0, size);
-        self.read_exact(&mut vec)?;
+        // The size comes from the input, for an attribute it can be up to 4 GiB: allocate at most 64 KiB up front,
+        // beyond that the vec only grows with the data that is actually there.
+        let mut vec = Vec::with_capacity(size.min(1 << 16));
+        let read = self.by_ref().take(size as u64).read_to_end(&mut vec)?;
+        if read != size {
+            bail!("couldn't read {size} bytes, the data ends after {read} bytes");
+        }
         Ok(vec)
     }
 }
